@@ -16,6 +16,8 @@ pub use self::parser::Action as ParseAction;
 pub use self::parser::Result as ParseResult;
 pub use self::parser::State as ParseState;
 pub use self::parser::{parse_bytes, parse_words, Consumer, Parser};
+#[cfg(any(kani, rspirv_verif))]
+pub use self::parser::verif;
 
 pub use self::assemble::Assemble;
 pub use self::disassemble::Disassemble;
